@@ -304,275 +304,367 @@ func (w *World) normalizeLocals(overlay map[string][]byte) (map[string][]byte, [
 			objs = append(objs, c)
 		}
 		sort.Slice(objs, func(i, j int) bool { return objs[i].as.Pos() < objs[j].as.Pos() })
-		for _, c := range objs {
-			if bad[c.obj] || len(c.uses) == 0 {
-				continue
-			}
-			sroa := map[*ast.Ident]ast.Expr{} // use -> field value, for a struct literal read field by field
-			if lit, ok := ast.Unparen(c.rhs).(*ast.CompositeLit); ok {
-				if _, isStruct := info.TypeOf(lit).Underlying().(*types.Struct); isStruct {
-					vals := map[string]ast.Expr{}
-					keyed := true
-					for _, e := range lit.Elts {
-						kv, isKV := e.(*ast.KeyValueExpr)
-						if !isKV {
-							keyed = false
-							break
-						}
-						if k, ok := kv.Key.(*ast.Ident); ok {
-							vals[k.Name] = kv.Value
-						}
-					}
-					all := keyed && len(lit.Elts) > 0
-					for _, u := range c.uses {
-						sel, isSel := parentOf[ast.Node(u)].(*ast.SelectorExpr)
-						if !isSel || sel.X != ast.Expr(u) || vals[sel.Sel.Name] == nil {
-							all = false
-							break
-						}
-						// the field must only be read
-						switch pp := parentOf[ast.Node(sel)].(type) {
-						case *ast.AssignStmt:
-							for _, l := range pp.Lhs {
-								if l == ast.Expr(sel) {
-									all = false
-								}
-							}
-						case *ast.UnaryExpr:
-							if pp.Op == token.AND {
-								all = false
-							}
-						case *ast.IncDecStmt:
-							all = false
-						}
-						sroa[u] = vals[sel.Sel.Name]
-					}
-					for _, v := range vals {
-						if !w.pureExpr(f, v) {
-							all = false
-						}
-					}
-					if !all {
-						continue
-					}
-				}
-			}
-			if len(sroa) > 0 {
-				// handled below with the common clobber check: the reads are those of all field values
-			} else if lit, ok := ast.Unparen(c.rhs).(*ast.CompositeLit); ok {
-				// a literal table used once, as the operand of a range: substituting keeps the single evaluation
-				okLit := len(c.uses) == 1
-				if okLit {
-					rs, isRange := parentOf[ast.Node(c.uses[0])].(*ast.RangeStmt)
-					okLit = isRange && ast.Unparen(rs.X) == ast.Expr(c.uses[0])
-				}
-				for _, e := range lit.Elts {
-					if !okLit {
-						break
-					}
-					if kv, isKV := e.(*ast.KeyValueExpr); isKV {
-						e = kv.Value
-					}
-					if u, ok := ast.Unparen(e).(*ast.UnaryExpr); ok && u.Op == token.AND {
-						e = u.X
-					}
-					if !w.pureExpr(f, e) {
-						okLit = false
-					}
-				}
-				if !okLit {
+		// pass 0 finds out which candidates could be substituted at all; pass 1 substitutes the first one whose
+		// expression mentions no such candidate (a mention of a local that has to stay is no obstacle)
+		elig := map[types.Object]bool{}
+		for pass := 0; pass < 2; pass++ {
+			for _, c := range objs {
+				if bad[c.obj] || len(c.uses) == 0 {
 					continue
 				}
-			} else if !w.pureExpr(f, c.rhs) {
-				continue
-			}
-			// a use inside a function literal sees later states: skip
-			inLit := false
-			for _, u := range c.uses {
-				for p := parentOf[ast.Node(u)]; p != nil; p = parentOf[p] {
-					if _, ok := p.(*ast.FuncLit); ok {
-						inLit = true
-					}
-				}
-			}
-			if inLit {
-				continue
-			}
-			// the RHS must not mention another candidate (keep it simple: one level per pass)
-			mentions := false
-			reads := map[types.Object]bool{}
-			var readPaths []string
-			ast.Inspect(c.rhs, func(x ast.Node) bool {
-				if id, ok := x.(*ast.Ident); ok {
-					o := info.ObjectOf(id)
-					if cands[o] != nil {
-						mentions = true
-					}
-					if _, isVar := o.(*types.Var); isVar {
-						reads[o] = true
-					}
-				}
-				return true
-			})
-			if mentions {
-				continue
-			}
-			_ = readPaths
-			sort.Slice(c.uses, func(i, j int) bool { return c.uses[i].Pos() < c.uses[j].Pos() })
-			lo, hi := c.as.End(), c.uses[len(c.uses)-1].Pos()
-			// extend to the end of any loop that contains a use but not the definition
-			for _, u := range c.uses {
-				for p := parentOf[ast.Node(u)]; p != nil; p = parentOf[p] {
-					switch p.(type) {
-					case *ast.ForStmt, *ast.RangeStmt:
-						if !(p.Pos() <= c.as.Pos() && c.as.End() <= p.End()) && p.End() > hi {
-							hi = p.End()
+				sroa := map[*ast.Ident]ast.Expr{} // use -> field value, for a struct literal read field by field
+				if lit, ok := ast.Unparen(c.rhs).(*ast.CompositeLit); ok {
+					if _, isStruct := info.TypeOf(lit).Underlying().(*types.Struct); isStruct {
+						vals := map[string]ast.Expr{}
+						keyed := true
+						for _, e := range lit.Elts {
+							kv, isKV := e.(*ast.KeyValueExpr)
+							if !isKV {
+								keyed = false
+								break
+							}
+							if k, ok := kv.Key.(*ast.Ident); ok {
+								vals[k.Name] = kv.Value
+							}
+						}
+						all := keyed && len(lit.Elts) > 0
+						for _, u := range c.uses {
+							sel, isSel := parentOf[ast.Node(u)].(*ast.SelectorExpr)
+							if !isSel || sel.X != ast.Expr(u) || vals[sel.Sel.Name] == nil {
+								all = false
+								break
+							}
+							// the field must only be read
+							switch pp := parentOf[ast.Node(sel)].(type) {
+							case *ast.AssignStmt:
+								for _, l := range pp.Lhs {
+									if l == ast.Expr(sel) {
+										all = false
+									}
+								}
+							case *ast.UnaryExpr:
+								if pp.Op == token.AND {
+									all = false
+								}
+							case *ast.IncDecStmt:
+								all = false
+							}
+							sroa[u] = vals[sel.Sel.Name]
+						}
+						for _, v := range vals {
+							if !w.pureExpr(f, v) {
+								all = false
+							}
+						}
+						if !all {
+							continue
 						}
 					}
 				}
-			}
-			// nothing the expression reads is written in (lo, hi): assignments, ++, &x, calls that receive it
-			clobber := false
-			useStmt := map[ast.Node]bool{}
-			for _, u := range c.uses {
-				useStmt[u] = true
-			}
-			rootObj := func(e ast.Expr) types.Object {
-				for {
-					switch y := ast.Unparen(e).(type) {
-					case *ast.Ident:
-						return info.ObjectOf(y)
-					case *ast.SelectorExpr:
-						e = y.X
-					case *ast.IndexExpr:
-						e = y.X
-					case *ast.StarExpr:
-						e = y.X
-					case *ast.SliceExpr:
-						e = y.X
-					default:
-						return nil
+				if len(sroa) > 0 {
+					// handled below with the common clobber check: the reads are those of all field values
+				} else if lit, ok := ast.Unparen(c.rhs).(*ast.CompositeLit); ok {
+					// a literal table used once, as the operand of a range: substituting keeps the single evaluation
+					okLit := len(c.uses) == 1
+					if okLit {
+						rs, isRange := parentOf[ast.Node(c.uses[0])].(*ast.RangeStmt)
+						okLit = isRange && ast.Unparen(rs.X) == ast.Expr(c.uses[0])
+					}
+					for _, e := range lit.Elts {
+						if !okLit {
+							break
+						}
+						if kv, isKV := e.(*ast.KeyValueExpr); isKV {
+							e = kv.Value
+						}
+						if u, ok := ast.Unparen(e).(*ast.UnaryExpr); ok && u.Op == token.AND {
+							e = u.X
+						}
+						if !w.pureExpr(f, e) {
+							okLit = false
+						}
+					}
+					if !okLit {
+						continue
+					}
+				} else if !w.pureExpr(f, c.rhs) {
+					continue
+				}
+				// a use inside a function literal sees later states: skip
+				inLit := false
+				for _, u := range c.uses {
+					for p := parentOf[ast.Node(u)]; p != nil; p = parentOf[p] {
+						if lit, ok := p.(*ast.FuncLit); ok {
+							// a literal that contains the definition as well runs them in program order; only the
+							// bindings the helper substitution wrote there are taken out again (a local the author
+							// wrote inside a closure may be one the rules know under another name)
+							if !(lit.Pos() <= c.as.Pos() && c.as.End() <= lit.End()) || !helperBinding(c.obj.Name()) {
+								inLit = true
+							}
+						}
 					}
 				}
-			}
-			ast.Inspect(f.Decl.Body, func(x ast.Node) bool {
-				if x == nil || clobber {
-					return false
+				if inLit {
+					continue
 				}
-				if x.End() <= lo || x.Pos() >= hi {
-					if x.Pos() >= hi {
-						return false
-					}
-					return true
-				}
-				switch y := x.(type) {
-				case *ast.AssignStmt:
-					if y.Pos() < lo {
+				// the RHS must not mention another candidate (keep it simple: one level per pass)
+				mentions := false
+				reads := map[types.Object]bool{}
+				// which first-level fields of each variable the expression reads ("" = the variable as a whole)
+				readFields := map[types.Object]map[string]bool{}
+				var readPaths []string
+				var rstack []ast.Node
+				ast.Inspect(c.rhs, func(x ast.Node) bool {
+					if x == nil {
+						rstack = rstack[:len(rstack)-1]
 						return true
 					}
-					for _, l := range y.Lhs {
-						if o := rootObj(l); o != nil && reads[o] {
-							// the assignment that is itself the last use reads before it writes
-							if !(y.End() >= hi && within(y, c.uses[len(c.uses)-1])) {
+					rstack = append(rstack, x)
+					if id, ok := x.(*ast.Ident); ok {
+						o := info.ObjectOf(id)
+						if cands[o] != nil && pass == 1 && elig[o] {
+							mentions = true
+						}
+						if _, isVar := o.(*types.Var); isVar {
+							reads[o] = true
+							fld := ""
+							if len(rstack) >= 2 {
+								if sel, ok := rstack[len(rstack)-2].(*ast.SelectorExpr); ok && sel.X == ast.Expr(id) {
+									if s := info.Selections[sel]; s != nil && s.Kind() == types.FieldVal {
+										fld = sel.Sel.Name
+									}
+								}
+							}
+							if readFields[o] == nil {
+								readFields[o] = map[string]bool{}
+							}
+							readFields[o][fld] = true
+						}
+					}
+					return true
+				})
+				// the first-level field a store through `o.f…` writes ("" = o itself or an element of it)
+				storedField := func(e ast.Expr) string {
+					var last string
+					for {
+						switch y := ast.Unparen(e).(type) {
+						case *ast.SelectorExpr:
+							if s := info.Selections[y]; s != nil && s.Kind() == types.FieldVal {
+								last = y.Sel.Name
+							} else {
+								last = ""
+							}
+							e = y.X
+						case *ast.IndexExpr:
+							last = ""
+							e = y.X
+						case *ast.StarExpr:
+							last = ""
+							e = y.X
+						case *ast.SliceExpr:
+							last = ""
+							e = y.X
+						default:
+							return last
+						}
+					}
+				}
+				if mentions {
+					continue
+				}
+				_ = readPaths
+				sort.Slice(c.uses, func(i, j int) bool { return c.uses[i].Pos() < c.uses[j].Pos() })
+				lo, hi := c.as.End(), c.uses[len(c.uses)-1].Pos()
+				// extend to the end of any loop that contains a use but not the definition
+				for _, u := range c.uses {
+					for p := parentOf[ast.Node(u)]; p != nil; p = parentOf[p] {
+						switch p.(type) {
+						case *ast.ForStmt, *ast.RangeStmt:
+							if !(p.Pos() <= c.as.Pos() && c.as.End() <= p.End()) && p.End() > hi {
+								hi = p.End()
+							}
+						}
+					}
+				}
+				// nothing the expression reads is written in (lo, hi): assignments, ++, &x, calls that receive it
+				clobber := false
+				useStmt := map[ast.Node]bool{}
+				for _, u := range c.uses {
+					useStmt[u] = true
+				}
+				rootObj := func(e ast.Expr) types.Object {
+					for {
+						switch y := ast.Unparen(e).(type) {
+						case *ast.Ident:
+							return info.ObjectOf(y)
+						case *ast.SelectorExpr:
+							e = y.X
+						case *ast.IndexExpr:
+							e = y.X
+						case *ast.StarExpr:
+							e = y.X
+						case *ast.SliceExpr:
+							e = y.X
+						default:
+							return nil
+						}
+					}
+				}
+				ast.Inspect(f.Decl.Body, func(x ast.Node) bool {
+					if x == nil || clobber {
+						return false
+					}
+					if x.End() <= lo || x.Pos() >= hi {
+						if x.Pos() >= hi {
+							return false
+						}
+						return true
+					}
+					switch y := x.(type) {
+					case *ast.AssignStmt:
+						if y.Pos() < lo {
+							return true
+						}
+						for _, l := range y.Lhs {
+							if o := rootObj(l); o != nil && reads[o] {
+								// a store into another field of the same variable does not change what was read
+								if sf := storedField(l); sf != "" && !readFields[o][""] && !readFields[o][sf] {
+									continue
+								}
+								// the assignment that is itself the last use reads before it writes
+								if !(y.End() >= hi && within(y, c.uses[len(c.uses)-1])) {
+									clobber = true
+								}
+							}
+						}
+					case *ast.IncDecStmt:
+						if o := rootObj(y.X); o != nil && reads[o] && y.Pos() >= lo {
+							clobber = true
+						}
+					case *ast.UnaryExpr:
+						if y.Op == token.AND && y.Pos() >= lo {
+							if o := rootObj(y.X); o != nil && reads[o] {
 								clobber = true
 							}
 						}
-					}
-				case *ast.IncDecStmt:
-					if o := rootObj(y.X); o != nil && reads[o] && y.Pos() >= lo {
-						clobber = true
-					}
-				case *ast.UnaryExpr:
-					if y.Op == token.AND && y.Pos() >= lo {
-						if o := rootObj(y.X); o != nil && reads[o] {
-							clobber = true
+					case *ast.CallExpr:
+						if y.Pos() < lo {
+							return true
 						}
-					}
-				case *ast.CallExpr:
-					if y.Pos() < lo {
-						return true
-					}
-					if tv, ok := info.Types[y.Fun]; ok && tv.IsType() {
-						return true
-					}
-					if within(y, c.uses[len(c.uses)-1]) {
-						return true // its operands are evaluated before it runs
-					}
-					callee := f.Callee(y)
-					isPure := false
-					if callee != nil {
-						if pureLibCall(calleeKey(callee)) {
-							isPure = true
+						if tv, ok := info.Types[y.Fun]; ok && tv.IsType() {
+							return true
 						}
-						ts := w.resolve(callee)
-						if len(ts) > 0 {
-							isPure = true
-							for _, t := range ts {
-								if !w.pureFunc(t, map[*Func]bool{}) {
-									isPure = false
+						if within(y, c.uses[len(c.uses)-1]) {
+							return true // its operands are evaluated before it runs
+						}
+						callee := f.Callee(y)
+						isPure := false
+						if callee != nil {
+							if pureLibCall(calleeKey(callee)) {
+								isPure = true
+							}
+							ts := w.resolve(callee)
+							if len(ts) > 0 {
+								isPure = true
+								for _, t := range ts {
+									if !w.pureFunc(t, map[*Func]bool{}) {
+										isPure = false
+									}
 								}
 							}
 						}
-					}
-					if id, ok := ast.Unparen(y.Fun).(*ast.Ident); ok {
-						if _, isB := info.ObjectOf(id).(*types.Builtin); isB && (id.Name == "len" || id.Name == "cap") {
-							isPure = true
+						if id, ok := ast.Unparen(y.Fun).(*ast.Ident); ok {
+							if _, isB := info.ObjectOf(id).(*types.Builtin); isB && (id.Name == "len" || id.Name == "cap") {
+								isPure = true
+							}
+						}
+						if isPure {
+							return true
+						}
+						// an impure call may write anything reachable from its receiver and arguments, and any
+						// state reachable from a pointer the expression reads through
+						touch := func(e ast.Expr) {
+							if o := rootObj(e); o != nil && reads[o] {
+								// a call that receives o.g can change what hangs off o.g, not another field of o
+								if sf := storedField(e); sf != "" && !readFields[o][""] && !readFields[o][sf] {
+									return
+								}
+								clobber = true
+							}
+						}
+						if sel, ok := ast.Unparen(y.Fun).(*ast.SelectorExpr); ok {
+							// a method that only stores into some fields of its receiver changes nothing else
+							limited := false
+							if o := rootObj(sel.X); o != nil && reads[o] && callee != nil {
+								if _, isId := ast.Unparen(sel.X).(*ast.Ident); isId {
+									ts := w.resolve(callee)
+									if len(ts) > 0 {
+										limited = true
+										for _, t := range ts {
+											fields, ok := w.receiverWrites(t)
+											if !ok || readFields[o][""] {
+												limited = false
+												break
+											}
+											for fld := range fields {
+												if readFields[o][fld] {
+													limited = false
+												}
+											}
+										}
+									}
+								}
+							}
+							if !limited {
+								touch(sel.X)
+							}
+						}
+						for _, a := range y.Args {
+							touch(a)
 						}
 					}
-					if isPure {
-						return true
-					}
-					// an impure call may write anything reachable from its receiver and arguments, and any
-					// state reachable from a pointer the expression reads through
-					touch := func(e ast.Expr) {
-						if o := rootObj(e); o != nil && reads[o] {
-							clobber = true
-						}
-					}
-					if sel, ok := ast.Unparen(y.Fun).(*ast.SelectorExpr); ok {
-						touch(sel.X)
-					}
-					for _, a := range y.Args {
-						touch(a)
-					}
+					return true
+				})
+				if clobber {
+					continue
 				}
-				return true
-			})
-			if clobber {
-				continue
-			}
-			if len(sroa) > 0 {
+				if pass == 0 {
+					elig[c.obj] = true
+					continue
+				}
+				if len(sroa) > 0 {
+					for _, u := range c.uses {
+						sel := parentOf[ast.Node(u)].(*ast.SelectorExpr)
+						v := sroa[u]
+						edits[fname] = append(edits[fname], textEdit{tf.Offset(sel.Pos()), tf.Offset(sel.End()), "(" + string(src[tf.Offset(v.Pos()):tf.Offset(v.End())]) + ")"})
+					}
+					edits[fname] = append(edits[fname], textEdit{tf.Offset(c.as.Pos()), tf.Offset(c.as.End()), dropPair(src, tf, c.as, c.idx, "// struct literal "+c.obj.Name()+" read field by field: substituted for analysis")})
+					for _, d := range dummy[c.obj] {
+						edits[fname] = append(edits[fname], textEdit{tf.Offset(d.Pos()), tf.Offset(d.End()), ""})
+					}
+					done = append(done, f.Name+":"+c.obj.Name())
+					break
+				}
+				// substitute
+				rhsText := string(src[tf.Offset(c.rhs.Pos()):tf.Offset(c.rhs.End())])
+				needParen := true
+				switch ast.Unparen(c.rhs).(type) {
+				case *ast.Ident, *ast.SelectorExpr, *ast.IndexExpr, *ast.CallExpr, *ast.BasicLit, *ast.TypeAssertExpr, *ast.ParenExpr:
+					needParen = false
+				}
+				if needParen {
+					rhsText = "(" + rhsText + ")"
+				}
 				for _, u := range c.uses {
-					sel := parentOf[ast.Node(u)].(*ast.SelectorExpr)
-					v := sroa[u]
-					edits[fname] = append(edits[fname], textEdit{tf.Offset(sel.Pos()), tf.Offset(sel.End()), "(" + string(src[tf.Offset(v.Pos()):tf.Offset(v.End())]) + ")"})
+					edits[fname] = append(edits[fname], textEdit{tf.Offset(u.Pos()), tf.Offset(u.End()), rhsText})
 				}
-				edits[fname] = append(edits[fname], textEdit{tf.Offset(c.as.Pos()), tf.Offset(c.as.End()), dropPair(src, tf, c.as, c.idx, "// struct literal "+c.obj.Name()+" read field by field: substituted for analysis")})
+				edits[fname] = append(edits[fname], textEdit{tf.Offset(c.as.Pos()), tf.Offset(c.as.End()), dropPair(src, tf, c.as, c.idx, "// local "+c.obj.Name()+" substituted into its uses for analysis")})
 				for _, d := range dummy[c.obj] {
 					edits[fname] = append(edits[fname], textEdit{tf.Offset(d.Pos()), tf.Offset(d.End()), ""})
 				}
 				done = append(done, f.Name+":"+c.obj.Name())
-				break
+				break // one substitution per function per round keeps edits disjoint
 			}
-			// substitute
-			rhsText := string(src[tf.Offset(c.rhs.Pos()):tf.Offset(c.rhs.End())])
-			needParen := true
-			switch ast.Unparen(c.rhs).(type) {
-			case *ast.Ident, *ast.SelectorExpr, *ast.IndexExpr, *ast.CallExpr, *ast.BasicLit, *ast.TypeAssertExpr, *ast.ParenExpr:
-				needParen = false
-			}
-			if needParen {
-				rhsText = "(" + rhsText + ")"
-			}
-			for _, u := range c.uses {
-				edits[fname] = append(edits[fname], textEdit{tf.Offset(u.Pos()), tf.Offset(u.End()), rhsText})
-			}
-			edits[fname] = append(edits[fname], textEdit{tf.Offset(c.as.Pos()), tf.Offset(c.as.End()), dropPair(src, tf, c.as, c.idx, "// local "+c.obj.Name()+" substituted into its uses for analysis")})
-			for _, d := range dummy[c.obj] {
-				edits[fname] = append(edits[fname], textEdit{tf.Offset(d.Pos()), tf.Offset(d.End()), ""})
-			}
-			done = append(done, f.Name+":"+c.obj.Name())
-			break // one substitution per function per round keeps edits disjoint
 		}
 	}
 	if len(done) == 0 {
@@ -926,4 +1018,19 @@ func dropPair(src []byte, tf *token.File, as *ast.AssignStmt, idx int, comment s
 		r = append(r, string(src[tf.Offset(as.Rhs[i].Pos()):tf.Offset(as.Rhs[i].End())]))
 	}
 	return strings.Join(l, ", ") + " := " + strings.Join(r, ", ") + " " + comment
+}
+
+
+// helperBinding: a name the helper substitution made up (x_h12).
+func helperBinding(name string) bool {
+	i := strings.LastIndex(name, "_h")
+	if i <= 0 || i+2 >= len(name) {
+		return false
+	}
+	for _, r := range name[i+2:] {
+		if r < '0' || r > '9' {
+			return false
+		}
+	}
+	return true
 }
